@@ -555,6 +555,31 @@ def make_store(h, I, mode, ncf, cache, next_index, indexable=None, index_group=N
                _nc_files=([] if ncf is None else [ncf]), _nc=({} if ncf is None else {'base': ncf}),
                _file_creation_pending=pending, _next_index=next_index,
                _write_enabled=(mode in ('CREATE', 'APPEND')))
+    # attributes the constructor initialises to a constant and that this model does not know of (a cache added later, a
+    # counter): the store object gets them with the constructor's value, as a freshly opened store has them
+    import ast as _ast
+    undeclared = {}
+    init = I.lookup_fq(TS + '.__init__')
+    for node in _ast.walk(init.node):
+        if isinstance(node, (_ast.Assign, _ast.AnnAssign)) and isinstance(getattr(node, 'value', None), _ast.Constant):
+            for tg in (node.targets if isinstance(node, _ast.Assign) else [node.target]):
+                if isinstance(tg, _ast.Attribute) and isinstance(tg.value, _ast.Name) and tg.value.id == 'self' and tg.attr not in st.attrs:
+                    st.attrs[tg.attr] = node.value.value
+                    undeclared[tg.attr] = node.value.value
+    known = set(st.attrs)
+
+    def no_undeclared_state(h_):
+        # the per-operation units are an induction over the store's *declared* representation (rows, next index, cache,
+        # index table, flags); an operation that leaves other state behind on the store object (a memo, a counter) escapes
+        # that induction, so the unit is not decided by it (the native replay then decides)
+        changed = [k for k, v in undeclared.items() if st.attrs.get(k, '<removed>') is not v and st.attrs.get(k) != v]
+        added = [k for k in st.attrs if k not in known and not k.startswith('__')]
+        if changed or added:
+            raise Unsupported('the operation leaves state on the store object that the store model does not declare: ' +
+                              ', '.join(sorted(changed + added)))
+    if not hasattr(h.ctx, 'at_end'):
+        h.ctx.at_end = []
+    h.ctx.at_end.append(no_undeclared_state)
     return st
 
 
